@@ -46,6 +46,7 @@ import (
 	"strconv"
 	"strings"
 	"sync"
+	"sync/atomic"
 	"time"
 
 	"github.com/irai/packet"
@@ -109,6 +110,7 @@ type pingRun struct {
 	tmoTok  string        // timeout field of the token: <ms>, n<ns> or huge
 	raw     time.Duration // the timeout ARGUMENT handed to Ping/Ping6
 	retAt   time.Time     // when the call returned
+	sentAt  time.Time     // when its (scripted) WriteTo returned
 	beginDone time.Time   // when its begin step finished
 	start   time.Time
 	done    chan error
@@ -434,6 +436,7 @@ func (e *executor) stepAt(toks []string, i int) int {
 		var inner []string
 		isInner := func(t string) bool {
 			return strings.HasPrefix(t, "f.") || strings.HasPrefix(t, "r.") || strings.HasPrefix(t, "x.") ||
+				strings.HasPrefix(t, "sl.") || strings.HasPrefix(t, "fg.") ||
 				strings.HasPrefix(t, "b4.") || strings.HasPrefix(t, "b6.") || strings.HasPrefix(t, "br.") || t == "s"
 		}
 		for ; j < len(toks) && isInner(toks[j]); j++ {
@@ -461,6 +464,23 @@ func (e *executor) stepAt(toks []string, i int) int {
 			pr.id = id
 			for _, t := range inner {
 				// everything here happens while call p is still inside its WriteTo
+				if strings.HasPrefix(t, "sl.") { // the write is slow: hold it (not a model event)
+					ms, _ := strconv.Atoi(t[3:])
+					time.Sleep(time.Duration(ms) * time.Millisecond)
+					continue
+				}
+				if strings.HasPrefix(t, "fg.") { // the reply is parsed by ANOTHER goroutine during the write
+					fr, ok := e.concretise("f." + t[3:])
+					if !ok {
+						hookBad = "badscript"
+						return nil
+					}
+					pd := make(chan struct{})
+					go func() { e.parseFrame(fr); close(pd) }()
+					<-pd
+					e.lin = append(e.lin, "r."+lib.Hex(fr))
+					continue
+				}
 				if !strings.HasPrefix(t, "f.") && !strings.HasPrefix(t, "r.") {
 					e.stepAt([]string{t}, 0) // x.<n>, another call's b4/b6, a snapshot
 					continue
@@ -475,6 +495,7 @@ func (e *executor) stepAt(toks []string, i int) int {
 				e.parseFrame(fr)
 				e.lin = append(e.lin, "r."+lib.Hex(fr))
 			}
+			pr.sentAt = time.Now() // the send returns now: the deadline runs from here (time.After after the send)
 			if !sendOK {
 				return errors.New("verif: write failed after delivering the reply")
 			}
@@ -833,7 +854,11 @@ func runScript(next0 uint16, toks []string) (lin []string, obs string, jitter bo
 			jitter = true
 		}
 		// oracle: ErrTimeout must not come before the EFFECTIVE timeout has elapsed
-		if pr.res == "timeout" && !pr.retAt.IsZero() && pr.retAt.Sub(pr.start) < pr.timeout {
+		from := pr.start
+		if pr.sentAt.After(from) {
+			from = pr.sentAt
+		}
+		if pr.res == "timeout" && !pr.retAt.IsZero() && pr.retAt.Sub(from) < pr.timeout {
 			early++
 		}
 	}
@@ -877,7 +902,7 @@ func runChild(exe string, sc scenario) (line string, obs string, ok bool) {
 		go func() { done <- cmd.Wait() }()
 		select {
 		case <-done:
-		case <-time.After(60 * time.Second):
+		case <-time.After(45 * time.Second):
 			cmd.Process.Kill()
 			<-done
 			return "scn " + script, "hang", true
@@ -887,6 +912,9 @@ func runChild(exe string, sc scenario) (line string, obs string, ok bool) {
 		for sc2.Scan() {
 			f := strings.Split(sc2.Text(), "\t")
 			if len(f) == 4 && f[0] == "@@C19" {
+				if f[3] == "hang" {
+					return "scn " + script, "hang", true
+				}
 				if f[3] == "jitter" {
 					break
 				}
@@ -950,7 +978,16 @@ func main() {
 			}
 		}
 	})
-	r.Register("consts", func(a []string) string { return sourceConsts() })
+	r.Register("consts", func(a []string) string { // replay: the components named in the argument
+		res, _ := sourceConsts()
+		var parts []string
+		if len(a) == 1 && a[0] != "-" {
+			for _, n := range strings.Split(a[0], ",") {
+				parts = append(parts, n+"="+res[n])
+			}
+		}
+		return strings.Join(parts, ";")
+	})
 	// vdr a0 a1 a2: Session.ValidateDefaultRouter against a responder inside WriteTo that answers the k-th
 	// echo request (to the request's own source address) iff a_k = T; an unanswered ping costs its 2 s
 	r.Register("vdr", func(a []string) string {
@@ -987,6 +1024,13 @@ func main() {
 	})
 	if *childFlag != "" {
 		a := strings.Fields(*childFlag)
+		// watchdog: a scenario takes a few seconds at most; if a step blocks (a lock held across WriteTo,
+		// a Ping that never returns, ...) report the hang with the script as replay instead of never ending
+		time.AfterFunc(25*time.Second, func() {
+			fmt.Printf("@@C19\tscn %s\thang\thang\n", *childFlag)
+			os.Stdout.Sync()
+			os.Exit(0)
+		})
 		n, _ := strconv.Atoi(a[0])
 		lin, obs, jitter := safeRun(uint16(n), a[1:])
 		j := "ok"
@@ -1003,7 +1047,13 @@ func main() {
 	if err != nil {
 		panic(err)
 	}
-	r.Do("consts", "now") // source-derived constants against the model's own computation
+	// source-derived constants against the model's own computation: only RESOLVED components are compared
+	if arg, obs, un := constsCase(); true {
+		r.Case("consts", []string{arg}, obs)
+		for _, n := range un {
+			r.Stat("consts.unresolved."+n, 1)
+		}
+	}
 	// ValidateDefaultRouter's decision in isolation (every unanswered ping is a real 2 s wait)
 	vdrMasks := [][3]string{{"T", "T", "T"}, {"T", "T", "F"}, {"T", "F", "T"}}
 	if r.Thorough() {
@@ -1013,7 +1063,16 @@ func main() {
 	vobs := make([]string, len(vdrMasks))
 	for i, m := range vdrMasks {
 		vwg.Add(1)
-		go func(i int, m [3]string) { defer vwg.Done(); vobs[i] = r.Exec("vdr", m[:]) }(i, m)
+		go func(i int, m [3]string) {
+			defer vwg.Done()
+			ch := make(chan string, 1)
+			go func() { ch <- r.Exec("vdr", m[:]) }()
+			select {
+			case vobs[i] = <-ch:
+			case <-time.After(15 * time.Second): // at most three 2 s pings
+				vobs[i] = "hang"
+			}
+		}(i, m)
 	}
 	defer func() {
 		vwg.Wait()
@@ -1037,13 +1096,21 @@ func main() {
 	outs := make([]outT, len(scs))
 	var wg sync.WaitGroup
 	sem := make(chan struct{}, workers)
+	var hangs int32
 	for i := range scs {
 		wg.Add(1)
 		sem <- struct{}{}
 		go func(i int) {
 			defer wg.Done()
 			defer func() { <-sem }()
+			if atomic.LoadInt32(&hangs) >= 3 { // the library blocks: do not spend the budget on every scenario
+				outs[i] = outT{"", "skipped", true, scs[i].class}
+				return
+			}
 			l, o, ok := runChild(exe, scs[i])
+			if ok && o == "hang" {
+				atomic.AddInt32(&hangs, 1)
+			}
 			outs[i] = outT{l, o, ok, scs[i].class}
 		}(i)
 	}
@@ -1051,6 +1118,15 @@ func main() {
 	for _, o := range outs {
 		if !o.ok {
 			r.Stat("discard.jitter", 1)
+			continue
+		}
+		if o.obs == "skipped" {
+			r.Stat("skipped.after-hangs", 1)
+			continue
+		}
+		if o.obs == "hang" { // impl-violates-spec: every call of the property returns (nil or an error) in bounded time
+			r.Viol("scenario-hang", "the scenario did not finish: a step of the library blocked (Ping/Ping6/Parse/Close never returned)", o.line)
+			r.Stat("hang."+o.class, 1)
 			continue
 		}
 		f := strings.Fields(o.line)
